@@ -25,19 +25,20 @@ spec clsOf(ty ddptypes.Type) int :=
 // every error path of the checker goes through err: the module is marked faulty (and stays so)
 func (*Typechecker).err [C04, C07]
   requires t != nil && t.Module != nil && t.Module.Ast != nil && t.panicMode != nil
-  modifies ast.Ast.Faulty, *bool, parser.parser.errored
+  modifies ast.Ast.Faulty, *bool, parser.parser.errored, g:$deliveredErr
   ensures t.Module.Ast.Faulty
   ensures forall a *ast.Ast :: a != t.Module.Ast ==> a.Faulty == old(a.Faulty)
 
 func (*Typechecker).errExpr [C04]
   requires t != nil && t.Module != nil && t.Module.Ast != nil && t.panicMode != nil
-  modifies ast.Ast.Faulty, *bool, parser.parser.errored
+  modifies ast.Ast.Faulty, *bool, parser.parser.errored, g:$deliveredErr
   ensures t.Module.Ast.Faulty
   ensures forall a *ast.Ast :: a != t.Module.Ast ==> a.Faulty == old(a.Faulty)
 
 func (*Typechecker).errExpected [C04]
   requires t != nil && t.Module != nil && t.Module.Ast != nil && t.panicMode != nil
-  modifies ast.Ast.Faulty, *bool, parser.parser.errored
+  // ([]any: the argument lists built for fmt inside the loop)
+  modifies ast.Ast.Faulty, *bool, parser.parser.errored, g:$deliveredErr, []any
   ensures t.Module.Ast.Faulty
   ensures forall a *ast.Ast :: a != t.Module.Ast ==> a.Faulty == old(a.Faulty)
 
